@@ -794,6 +794,15 @@ T('C11', 'twin-dash-per-line-str-methods', PGP, _ESC, "        return '\\n'.join
 M('C11', 'escape-per-line-wrong-prefix-test', PGP, _ESC, "        return '\\n'.join('- ' + line if line.startswith('--') else line for line in text.split('\\n'))", 'C11.1')
 M('C11', 'unescape-per-line-removes-dash-only', PGP, _UNE, "        return '\\n'.join(line.removeprefix('-') for line in text.split('\\n'))", 'C11.1')
 
+for _i, _what in enumerate(('sub-everywhere-early-return', 'precompiled-class-constants', 'inline-flag-merged-template-concat', 'positional-count-flags-if-chain-listcomp',
+                            'regex-respellings-percent-bound-super', 'lookahead-insert-mangled-template-fstring', 'inverted-view-flag-extend-generator',
+                            'mangled-compiled-join-parts', 'verify-hoisted-view-local-compile', 'nonraw-patterns-positional-fields-count0'), 1):
+    _TD('C11', 'stress-D-twin%02d-%s' % (_i, _what), 'G9-D-twin%02d.diff' % _i)
+for _i, (_what, _r) in enumerate((('escape-str-replace-first-line', 'C11.1'), ('unescape-flag-in-count-position', 'C11.1'), ('text-literal-signed-as-canonical', 'C11.6'),
+                                  ('strip-misses-last-line', 'C11.4'), ('hash-header-lowercase-hasher-name', 'C11.3'), ('blank-line-folded-into-hash-header', 'C11.3'),
+                                  ('verify-raw-message', 'C11.4'), ('lone-cr-canonicalised', 'C11.4')), 1):
+    _MD('C11', 'stress-D-mut%02d-%s' % (_i, _what), 'G9-D-mut%02d.diff' % _i, _r)
+
 # =============================================================================================== C09
 M('C09', 'enc-191', TY, "            if 192 > nl:\n                return Header.int_to_bytes(nl)", "            if 191 > nl:\n                return Header.int_to_bytes(nl)", 'C09.1')
 M('C09', 'enc-8383', TY, "            elif 8384 > nl:\n                elen", "            elif 8383 > nl:\n                elen", 'C09.1')
